@@ -260,6 +260,38 @@ Proof.
   cbn. fold (strip_required d). unfold list_delete. destruct (existsb _ (strip_required d)); reflexivity.
 Qed.
 
+(* a list entry {$match: m, ...patch}: every entry of the parent list that matches m - all of them, wherever they
+   stand - is merged with the patch (read without its $match key); the others, and the order, are unchanged; if
+   nothing matches the layer is rejected *)
+Lemma merge_list_match_entry d vm m :
+  has_map_bool vm "$replace" true = false -> lookup "$delete" vm = None -> lookup "$match" vm = Some m ->
+  has_key "$value" (remove "$match" vm) = false ->
+  merge' (VList d) (VList [VMap vm]) =
+    do r <- map_res (fun e => if vmatch e m then merge e (VMap vm) true else Ok e) (strip_required d);
+    if existsb (fun e => vmatch e m) (strip_required d) then Ok (VList r) else Err ENoMatch.
+Proof.
+  intros Hr Hd Hm Hv. unfold merge'. rewrite merge_list_list. cbn [existsb is_str orb].
+  unfold has_list_map_bool. cbn [existsb orb]. rewrite Hr. cbn [orb].
+  cbn [merge_list_entries]. rewrite Hd, Hm. unfold match_patch. cbv zeta. rewrite Hv.
+  fold (strip_required d). destruct (map_res _ (strip_required d)) as [r|e]; cbn [bind]; [|reflexivity].
+  destruct (existsb _ (strip_required d)); reflexivity.
+Qed.
+
+(* with $value: the matching entries are merged with the $value (a scalar replaces them) *)
+Lemma merge_list_match_value d vm m :
+  has_map_bool vm "$replace" true = false -> lookup "$delete" vm = None -> lookup "$match" vm = Some m ->
+  has_key "$value" (remove "$match" vm) = true -> remove "$value" (remove "$match" vm) = [] ->
+  merge' (VList d) (VList [VMap vm]) =
+    do r <- map_res (fun e => if vmatch e m then value_patch e vm else Ok e) (strip_required d);
+    if existsb (fun e => vmatch e m) (strip_required d) then Ok (VList r) else Err ENoMatch.
+Proof.
+  intros Hr Hd Hm Hv Hx. unfold merge'. rewrite merge_list_list. cbn [existsb is_str orb].
+  unfold has_list_map_bool. cbn [existsb orb]. rewrite Hr. cbn [orb].
+  cbn [merge_list_entries]. rewrite Hd, Hm. unfold match_patch. cbv zeta. rewrite Hv, Hx.
+  fold (strip_required d). destruct (map_res _ (strip_required d)) as [r|e]; cbn [bind]; [|reflexivity].
+  destruct (existsb _ (strip_required d)); reflexivity.
+Qed.
+
 Lemma merge_list_delete_extra d pat k x : String.eqb "$delete" k = false -> String.eqb "$replace" k = false ->
   merge' (VList d) (VList [VMap [("$delete", pat); (k, x)]]) = Err EExtraKeys.
 Proof.
